@@ -400,7 +400,7 @@ func c04HalfOpenPermits(c *Ctx) {
 	ix := BuildIndex(c.P)
 	allowed := map[string]bool{"circuitbreaker.(*halfOpenState).tryAcquirePermit": true, "circuitbreaker.(*halfOpenState).checkThresholdAndReleasePermit": true, "circuitbreaker.newHalfOpenState": true}
 	okW := true
-	for _, w := range ix.Writers(FieldRef{Type: "halfOpenState", Pkg: "circuitbreaker", Field: "permittedExecutions"}) {
+	for _, w := range ix.Writers(FieldRef{Type: "halfOpenState", Pkg: "circuitbreaker", Field: actualField("circuitbreaker", "halfOpenState", "permittedExecutions")}) {
 		if !allowed[c.fn(w)] {
 			okW = false
 			c.Fail("circuitbreaker.halfOpenState.permittedExecutions#writers", c.P.FuncPos(w), "the trial permit counter is written by "+c.fn(w), "")
